@@ -317,6 +317,12 @@ func RsaDecryptWithPublicKey(ciphertext []byte, publicKey RsaPublicKey) ([]byte,
 	}
 
 	m := new(big.Int).SetBytes(ciphertext)
+
+	// the signature representative must be below the modulus (RFC 8017 RSAVP1), otherwise s and s+N verify alike
+	if publicKey.N == nil || m.Cmp(publicKey.N) >= 0 {
+		return nil, fmt.Errorf("[RsaDecryptWithPublicKey] ciphertext out of range (not below the modulus)")
+	}
+
 	e := big.NewInt(int64(publicKey.E))
 	c := new(big.Int).Exp(m, e, publicKey.N)
 
